@@ -25,7 +25,8 @@ func (w *World) Balances() Bal {
 }
 
 func (b Bal) Of(addr, dn string) sdk.Int {
-	return b[addr].AmountOf(dn)
+	// balances are keyed by the canonical spelling; records may hold another spelling of the same account
+	return b[canonAddr(addr)].AmountOf(dn)
 }
 
 // Delta returns after-before per address for one denom, only non-zero entries.
